@@ -803,8 +803,11 @@ def _helper_kind(fn: ast.FunctionDef):
         return None
     if fn.args.vararg or fn.args.kwarg or fn.args.kwonlyargs:
         return None
-    if any(isinstance(n, (ast.Yield, ast.YieldFrom, ast.Await, ast.Global, ast.Nonlocal, ast.FunctionDef, ast.Lambda)) for s in body for n in ast.walk(s)):
+    if any(isinstance(n, (ast.Yield, ast.YieldFrom, ast.Await, ast.Global, ast.Nonlocal, ast.FunctionDef)) for s in body for n in ast.walk(s)):
         return None
+    hp = {a.arg for a in fn.args.posonlyargs + fn.args.args}
+    if any(isinstance(n, ast.Lambda) and ({a.arg for a in n.args.args} & hp) for s in body for n in ast.walk(s)):
+        return None  # a lambda parameter that shadows a parameter of the helper: substitution would capture it
     if len(body) == 1 and isinstance(body[0], ast.Return) and body[0].value is not None:
         return ("expr", body)
     # a decision list: `if c: return A` ... `return B`  is the expression `A if c else ... B`
@@ -1425,6 +1428,20 @@ def _inline_site(m: ast.FunctionDef, call: ast.Call, h: ast.FunctionDef, kind, b
             return False
         new = _Subst(mapping).visit(clone(body[0].value))
         return _replace(m, call, new)
+    if k in ("search", "valsearch"):
+        for blk in blocks_of(m):
+            for i, st in enumerate(blk):
+                if isinstance(st, ast.If) and st.test is call:
+                    tmp = "is_" + call.func.attr.strip("_") + "_done"
+                    if any(isinstance(n, ast.Name) and n.id == tmp for n in ast.walk(m)):
+                        return False
+                    blk.insert(i, ast.copy_location(ast.Assign(targets=[ast.Name(id=tmp, ctx=ast.Store())], value=call), st))
+                    st.test = ast.copy_location(ast.Name(id=tmp, ctx=ast.Load()), call)
+                    ast.fix_missing_locations(m)
+                    break
+            else:
+                continue
+            break
     if k == "search":
         return _inline_search(m, call, body, mapping, pre)
     if k == "valsearch":
